@@ -285,12 +285,12 @@ func (kt *KustTarget) runGenerators(
 		if resMap != nil {
 			err = resMap.AddOriginAnnotation(generators[i].Origin)
 			if err != nil {
-				return errors.WrapPrefixf(err, "adding origin annotations for generator %v", g)
+				return errors.WrapPrefixf(err, "adding origin annotations for generator %T", g.Generator)
 			}
 		}
 		err = ra.AbsorbAll(resMap)
 		if err != nil {
-			return errors.WrapPrefixf(err, "merging from generator %v", g)
+			return errors.WrapPrefixf(err, "merging from generator %T", g.Generator)
 		}
 	}
 	return nil
